@@ -483,11 +483,34 @@ func honest(a *hx.Args, res *hx.Result) {
 			}
 			ms = append(ms, big.Convert(new(gobig.Int).Set(v)))
 		}
-		sig, err := gabi.SignMessageBlock(cz.kp.SK, pk, ms)
-		if err != nil {
-			hx.Fatal("sign: %v", err)
+		var cred *gabi.Credential
+		nonrev := false
+		variant := "minted"
+		if ci%4 == 1 && len(ms) >= 3 && len(ms) <= 5 {
+			// variant: the credential comes out of the real issuance protocol with a random-blind last attribute and a
+			// non-revocation witness, and is shown with a non-revocation proof
+			variant = "issued+randomblind+nonrev"
+			wit, _, rerr := hx.NewRevocation(cz.kp)
+			if rerr != nil {
+				hx.Fatal("revocation: %v", rerr)
+			}
+			attrs := append([]*big.Int{}, ms[1:]...)
+			blindIdx := len(attrs) - 1
+			attrs[blindIdx] = nil
+			attrs = append(attrs, wit.E)
+			c2, ierr := hx.Issue(cz.kp, big.NewInt(1), ms[0], nil, attrs, wit, []int{blindIdx})
+			if ierr != nil {
+				res.Violation("honest-issuance-failed", fmt.Sprintf("issuance with a random-blind attribute and a witness failed: %v", ierr), hx.M{"m": c.M})
+				return
+			}
+			cred, ms, nonrev = c2, c2.Attributes, true
+		} else {
+			sig, err := gabi.SignMessageBlock(cz.kp.SK, pk, ms)
+			if err != nil {
+				hx.Fatal("sign: %v", err)
+			}
+			cred = &gabi.Credential{Signature: sig, Pk: pk, Attributes: ms}
 		}
-		cred := &gabi.Credential{Signature: sig, Pk: pk, Attributes: ms}
 		var disclosed []int
 		for _, i := range idxs(c.Disc) {
 			if c.Disc[strconv.Itoa(i)] != -1 {
@@ -502,7 +525,7 @@ func honest(a *hx.Args, res *hx.Result) {
 			var berr error
 			panicked, msg := hx.Try(func() {
 				var b *gabi.DisclosureProofBuilder
-				b, berr = cred.CreateDisclosureProofBuilder(disclosed, nil, false)
+				b, berr = cred.CreateDisclosureProofBuilder(disclosed, nil, nonrev)
 				if berr != nil {
 					return
 				}
@@ -510,7 +533,7 @@ func honest(a *hx.Args, res *hx.Result) {
 				tsA, tsDisclosed = b.TimestampRequestContributions()
 			})
 			res.Eval(fmt.Sprintf("honest/%v/%v/%v", c.M, disclosed, issig))
-			detail := hx.M{"m": c.M, "disclosed": disclosed, "issig": issig, "key": pk.Issuer}
+			detail := hx.M{"m": c.M, "disclosed": disclosed, "issig": issig, "key": pk.Issuer, "variant": variant}
 			if panicked {
 				res.Violation("prover-panic", "building a disclosure proof panicked: "+msg, detail)
 				continue
@@ -521,9 +544,14 @@ func honest(a *hx.Args, res *hx.Result) {
 			}
 			p := list[0].(*gabi.ProofD)
 			if !list.Verify([]*gabikeys.PublicKey{pk}, ctx, nonce, issig, nil) || !p.Verify(pk, ctx, nonce, issig) {
+				if nonrev && hx.D10Ambiguous(p, len(ms)-1) {
+					res.Count("discarded-known-finding-D10")
+					continue
+				}
 				res.Violation("honest-proof-rejected", "the library's own disclosure proof does not verify", detail)
 				continue
 			}
+			res.Count("variant:" + variant)
 			if list.Verify([]*gabikeys.PublicKey{pk}, ctx, nonce, !issig, nil) {
 				res.Violation("session-kind-confusion", "a proof verifies for the other session kind", detail)
 			}
